@@ -497,6 +497,24 @@ def In(x, c):
     raise TypeError("In on %s" % c.s)
 
 
+def mapstore(m, k, v):
+    k, v = lift(k, m.s.key), lift(v, m.s.val)
+    return m.s.mk(z3.Store(m.s.dom(m), k.t, True), z3.Store(m.s.vals(m), k.t, v.t))
+
+
+def mapdel(m, k):
+    k = lift(k, m.s.key)
+    return m.s.mk(z3.Store(m.s.dom(m), k.t, False), m.s.vals(m))
+
+
+def mapeq(a, b):
+    """Extensional equality of dicts: same keys, same values on them."""
+    k = a.s.key.fresh("q")
+    return V(BOOL, z3.And(a.s.dom(a) == b.s.dom(b),
+                          z3.ForAll([k.t], z3.Implies(z3.Select(a.s.dom(a), k.t),
+                                                      z3.Select(a.s.vals(a), k.t) == z3.Select(b.s.vals(b), k.t)))))
+
+
 def mkset(so, *xs):
     t = so.empty().t
     for x in xs:
